@@ -152,3 +152,38 @@ Definition tol_sun_luminosity : R := 1e-8.
 Definition ref_hubble_constant : R := 70000 / (1e6 * (648000 / PI) * 149597870700).
 Definition dim_hubble_constant : dim := mkdim 0 0 (-1) 0 0 0 0.
 Definition tol_hubble_constant : R := 5e-2.
+
+(* --- reserve: CODATA 2018 / IAU values of constants that are NOT in the catalogue on the pinned tree ------------
+   If a constant of one of these names is added to the catalogue it is checked like the others (instead of being
+   reported as unreferenced).  harness/props/c20.py does not require these names to exist. *)
+Definition ref_proton_rest_mass : R := 1.67262192369e-27.
+Definition dim_proton_rest_mass : dim := mkdim 0 1 0 0 0 0 0.
+Definition tol_proton_rest_mass : R := 1e-8.
+
+Definition ref_neutron_rest_mass : R := 1.67492749804e-27.
+Definition dim_neutron_rest_mass : dim := mkdim 0 1 0 0 0 0 0.
+Definition tol_neutron_rest_mass : R := 1e-8.
+
+Definition ref_atomic_mass_constant : R := 1.66053906660e-27.
+Definition dim_atomic_mass_constant : dim := mkdim 0 1 0 0 0 0 0.
+Definition tol_atomic_mass_constant : R := 1e-8.
+
+Definition ref_fine_structure_constant : R := 7.2973525693e-3.
+Definition dim_fine_structure_constant : dim := mkdim 0 0 0 0 0 0 0.
+Definition tol_fine_structure_constant : R := 1e-8.
+
+Definition ref_rydberg_constant : R := 10973731.568160.
+Definition dim_rydberg_constant : dim := mkdim (-1) 0 0 0 0 0 0.
+Definition tol_rydberg_constant : R := 1e-8.
+
+Definition ref_bohr_magneton : R := 9.2740100783e-24.
+Definition dim_bohr_magneton : dim := mkdim 2 0 0 1 0 0 0.
+Definition tol_bohr_magneton : R := 1e-8.
+
+Definition ref_astronomical_unit : R := 149597870700.
+Definition dim_astronomical_unit : dim := mkdim 1 0 0 0 0 0 0.
+Definition tol_astronomical_unit : R := 1e-8.
+
+Definition ref_standard_atmosphere : R := 101325.
+Definition dim_standard_atmosphere : dim := mkdim (-1) 1 (-2) 0 0 0 0.
+Definition tol_standard_atmosphere : R := 1e-8.
